@@ -128,6 +128,7 @@ func c14Body(c *ev.Ctx) {
 	type plan struct {
 		bound int
 		fine  bool
+		keys  bool // state-key pruning: sound only if every thread's state is a function of shim results; the bounded searches do without it
 		scen  []int
 	}
 	// iterate the deviation bound: 0, 1 preemptions with statement-level points, 2 and
@@ -136,16 +137,16 @@ func c14Body(c *ev.Ctx) {
 	for i := range all {
 		all[i] = i
 	}
-	plans := []plan{{0, true, all}, {1, true, []int{0, 1}}, {1, false, all}, {2, false, []int{0, 2}}, {-1, false, []int{0}}}
+	plans := []plan{{0, false, false, []int{0}}, {0, true, true, all}, {1, true, true, []int{0, 1}}, {1, false, true, all}, {2, false, true, []int{0, 2}}, {-1, false, true, []int{0}}}
 	if !quick {
-		plans = []plan{{0, true, all}, {1, true, all}, {2, false, all}, {-1, false, all}, {2, true, []int{0, 1}}}
+		plans = []plan{{0, false, false, all}, {1, false, false, []int{0, 1}}, {0, true, true, all}, {1, true, true, all}, {2, false, true, all}, {-1, false, true, all}, {2, true, true, []int{0, 1}}}
 	}
 	for _, pl := range plans {
 		for _, si := range pl.scen {
 			sc := scenarios[si]
 			sc.Fine = pl.fine
 			name := fmt.Sprintf("clients=%v cycles=%d", sc.Clients, sc.Cycles)
-			pname := fmt.Sprintf("bound=%d fine=%v", pl.bound, pl.fine)
+			pname := fmt.Sprintf("bound=%d fine=%v pruning=%v", pl.bound, pl.fine, pl.keys)
 			if c.Expired() || c.NViolations() > 0 {
 				if pl.bound < 0 {
 					exhaustive = false
@@ -155,7 +156,7 @@ func c14Body(c *ev.Ctx) {
 			}
 			var mu sync.Mutex
 			nfail := 0
-			e := &vsched.Explorer{Bound: pl.bound, Fine: pl.fine, UseKeys: true, MaxSteps: 20000, Workers: workers(), Deadline: c.Deadline, NewRun: c14Run(&sc), AfterRun: vhttp.Uninstall}
+			e := &vsched.Explorer{Bound: pl.bound, Fine: pl.fine, UseKeys: pl.keys, MaxSteps: 20000, Workers: workers(), Deadline: c.Deadline, NewRun: c14Run(&sc), AfterRun: vhttp.Uninstall}
 			e.OnFailure = func(choices []int, s *vsched.Sched, f *vsched.Failure) {
 				if f.Kind == "replay-divergence" {
 					c.HarnessError("replay divergence: %s", f.Msg)
@@ -202,13 +203,16 @@ func c14Body(c *ev.Ctx) {
 	if c.NViolations() == 0 {
 		conf = c14Conformance(c)
 	}
+	if c.NViolations() == 0 {
+		conf += c14E2E(c)
+	}
 	c.Set("traces_validated_against_impl", conf)
 	c.Set("executions_of_real_instrumented_code", totalExecs)
 	c.Set("distinct_outcomes", int64(len(outcomes)))
 	c.Set("outcome_samples", ok)
 	c.Set("scenarios", per)
 	c.Set("exhaustive", exhaustive)
-	c.Set("preemption_bounds", "0,1 (statement-level points), 2 and unbounded (shared-object operations, state-key pruning)")
+	c.Set("preemption_bounds", "0,1 (statement-level points, no pruning), 2 (shared-object operations, no pruning), unbounded (shared-object operations, state-key pruning)")
 	c.Sample(scenarios[1])
 	c.Set("rule", "every interleaving of the statement-level steps of server/job.go and server/server.go (instrumented from the working tree) with a model of net/http.Server, for a driver doing Run; RequestStop; AwaitStop; (bind check) x 0..2 clients x 1..2 start/stop cycles; executions are real runs of the repository code under a cooperative scheduler; states = (per-thread local history digests, channel/model-server/model-network state); an execution is cut when it reaches an explored state")
 	c.Assume("net/http.Server is modelled (vhttp), its steps mirror go1.23 server.go; the model's observable behaviour is compared with the real server on 7 scripted scenarios per run (traces_validated_against_impl counts matched observations), the window being forced with net/http's own testHookServerServe")
